@@ -868,6 +868,42 @@ func genC07(r *Run) {
 			}
 		}
 	}
+	// values built by the typed constructors (relay agent information goes through Options.ToBytes): a packet
+	// keeps its own option values while other packets and options are being built and encoded
+	for i := 0; i < r.N(200, 10000); i++ {
+		mkSubs := func() ([]dhcpv4.Option, []byte) {
+			var subs []dhcpv4.Option
+			var want []byte
+			for c := 1; c <= 9; c++ {
+				if r.Rng.Intn(3) == 0 {
+					d := r.Bytes(1 + r.Rng.Intn(12))
+					subs = append(subs, dhcpv4.OptGeneric(dhcpv4.GenericOptionCode(c), d))
+					want = append(append(want, byte(c), byte(len(d))), d...)
+				}
+			}
+			if len(subs) == 0 {
+				subs = append(subs, dhcpv4.OptGeneric(dhcpv4.GenericOptionCode(1), []byte{7}))
+				want = []byte{1, 1, 7}
+			}
+			return subs, want
+		}
+		subsA, wantA := mkSubs()
+		subsB, wantB := mkSubs()
+		pa, _ := dhcpv4.New(dhcpv4.WithTransactionID(dhcpv4.TransactionID{1, 2, 3, 4}), dhcpv4.WithOption(dhcpv4.OptRelayAgentInfo(subsA...)))
+		firstA := append([]byte{}, pa.ToBytes()...)
+		pb, _ := dhcpv4.New(dhcpv4.WithTransactionID(dhcpv4.TransactionID{5, 6, 7, 8}), dhcpv4.WithOption(dhcpv4.OptRelayAgentInfo(subsB...)))
+		wb := pb.ToBytes()
+		wa := pa.ToBytes()
+		evals++
+		cs := fmt.Sprintf("packet A with relay agent information % x, then packet B with % x", wantA, wantB)
+		if !bytes.Equal(pa.Options[82], wantA) || !bytes.Equal(pb.Options[82], wantB) {
+			r.Fail("c07-value-changed-by-building-another-packet", cs, fmt.Sprintf("A holds % x, B holds % x", pa.Options[82], pb.Options[82]))
+		} else if !bytes.Equal(wa, firstA) {
+			r.Fail("c07-encoding-changed-by-building-another-packet", cs, firstDiff(hx(firstA), hx(wa)))
+		}
+		validateWire(r, pa, wa, cs)
+		validateWire(r, pb, wb, cs)
+	}
 	// sampled larger sets
 	n := r.N(600, 30000)
 	for i := 0; i < n; i++ {
